@@ -53,12 +53,14 @@ def rand_date(rng: random.Random, lo=2008, hi=2020, era=None) -> str:
 def gen_leaf(rng, *, always=False, allow_null=True, lo=0.0, hi=10.0, boolean=False, era=None, p_inf=0.0):
     """[[date, value|None|'expected'], ...] (unordered on purpose)."""
     n = rng.randint(1, 5)
+    if rng.random() < 0.04:
+        n = rng.randint(17, 40)  # a parameter indexed every year for decades: a long history
     dates = set()
     first = "0001-01-01" if era == "ancient" else "1900-01-01"
     if always:
         dates.add(first)
     while len(dates) < n:
-        dates.add(rand_date(rng, era=era))
+        dates.add(rand_date(rng, era=era) if n <= 5 else rand_date(rng, 1960, 2030, era=era))
     out = []
     for d in sorted(dates):
         r = rng.random()
